@@ -466,6 +466,9 @@ func (c *fnCtx) mergeInto(b *ssa.BasicBlock) *State {
 		entryPhi[phi] = c.nameVal(v, "phi0_"+phi.Comment)
 	}
 	invs := c.invariantsFor(li)
+	if len(invs) == 0 {
+		invs = c.autoInvariants(li)
+	}
 	for _, inv := range invs {
 		for phi, v := range entryPhi {
 			c.vals[phi] = v
@@ -580,7 +583,145 @@ func (c *fnCtx) invariantsFor(li *loopInfo) []Clause {
 	if c.con == nil {
 		return nil
 	}
-	return c.con.Invariants[li.ordinal]
+	if invs := c.con.Invariants[li.ordinal]; len(invs) > 0 {
+		return invs
+	}
+	return c.autoInvs[li.ordinal]
+}
+
+// autoInvariants: for a loop without user invariants, every header phi of the shape
+// phi(c, phi + k) with constants c and k > 0 (a counter) gets the candidate "phi >= c".
+// Candidates are checked like any invariant (entry and preservation) before they are used.
+func (c *fnCtx) autoInvariants(li *loopInfo) []Clause {
+	if c.autoInvs == nil {
+		c.autoInvs = map[int][]Clause{}
+	}
+	if invs, ok := c.autoInvs[li.ordinal]; ok {
+		return invs
+	}
+	var out []Clause
+	for _, in := range li.header.Instrs {
+		phi, ok := in.(*ssa.Phi)
+		if !ok {
+			break
+		}
+		if phi.Comment == "" || kindOf(phi.Type()) != KInt {
+			continue
+		}
+		_, signed, _ := intInfo(phi.Type())
+		if !signed {
+			continue
+		}
+		var init *ssa.Const
+		okShape := true
+		for i, e := range phi.Edges {
+			pred := li.header.Preds[i]
+			if li.body[pred] {
+				// back edge: must be phi + k
+				b, isB := e.(*ssa.BinOp)
+				if !isB || b.Op != token.ADD || b.X != ssa.Value(phi) {
+					okShape = false
+					break
+				}
+				k, isC := b.Y.(*ssa.Const)
+				if !isC || k.Value == nil || k.Int64() <= 0 {
+					okShape = false
+				}
+			} else {
+				k, isC := e.(*ssa.Const)
+				if !isC || k.Value == nil {
+					okShape = false
+					break
+				}
+				if init != nil && init.Int64() != k.Int64() {
+					okShape = false
+				}
+				init = k
+			}
+		}
+		if !okShape || init == nil {
+			continue
+		}
+		// the increment must be protected from wrapping by an upper test: either the header
+		// tests the counter (or counter+k) with < / <=, or every edge into the header is guarded
+		// (checked below); otherwise no candidate (e.g. for i := 0; it.Next(&x); i++)
+		tested := false
+		if ifi, ok := li.header.Instrs[len(li.header.Instrs)-1].(*ssa.If); ok {
+			if cmp, ok := ifi.Cond.(*ssa.BinOp); ok && (cmp.Op == token.LSS || cmp.Op == token.LEQ) {
+				if cmp.X == ssa.Value(phi) {
+					tested = true
+				} else if b, ok := cmp.X.(*ssa.BinOp); ok && b.Op == token.ADD && b.X == ssa.Value(phi) {
+					tested = true
+				}
+			}
+		}
+		edgeGuarded := true
+		for i := range phi.Edges {
+			pred := li.header.Preds[i]
+			ifi, isIf := pred.Instrs[len(pred.Instrs)-1].(*ssa.If)
+			if !isIf || pred.Succs[0] != li.header {
+				edgeGuarded = false
+				break
+			}
+			if cmp, ok := ifi.Cond.(*ssa.BinOp); !ok || cmp.Op != token.LSS {
+				edgeGuarded = false
+				break
+			}
+		}
+		if !tested && !edgeGuarded {
+			continue
+		}
+		props := c.propsFor(nil)
+		if len(props) == 0 {
+			props = []string{"*"} // scan mode: belongs to whatever properties the function's obligations serve
+		}
+		pname := strings.ReplaceAll(phi.Comment, ".", "_")
+		out = append(out, Clause{Kind: "invariant", Loop: li.ordinal, Label: "auto", Props: props,
+			Text: fmt.Sprintf("%s >= %d", pname, init.Int64()), Pos: "auto"})
+		// rotated loops (range over an integer): every edge into the header is guarded by "value < B"
+		var bound ssa.Value
+		guarded := true
+		for i, e := range phi.Edges {
+			pred := li.header.Preds[i]
+			ifi, isIf := pred.Instrs[len(pred.Instrs)-1].(*ssa.If)
+			if !isIf || pred.Succs[0] != li.header {
+				guarded = false
+				break
+			}
+			cmp, isB := ifi.Cond.(*ssa.BinOp)
+			if !isB || cmp.Op != token.LSS {
+				guarded = false
+				break
+			}
+			// the compared value is the one flowing into the phi along this edge
+			same := cmp.X == e
+			if kx, ok := cmp.X.(*ssa.Const); ok {
+				if ke, ok := e.(*ssa.Const); ok && kx.Value != nil && ke.Value != nil && kx.Int64() == ke.Int64() {
+					same = true
+				}
+			}
+			if !same {
+				guarded = false
+				break
+			}
+			if bound == nil {
+				bound = cmp.Y
+			} else if bound != cmp.Y {
+				guarded = false
+				break
+			}
+		}
+		if guarded && bound != nil {
+			if bv, ok := c.vals[bound]; ok {
+				bn := fmt.Sprintf("autoB%d_%s", li.ordinal, pname)
+				c.lets[bn] = bv
+				out = append(out, Clause{Kind: "invariant", Loop: li.ordinal, Label: "auto", Props: props,
+					Text: fmt.Sprintf("%s < %s", pname, bn), Pos: "auto"})
+			}
+		}
+	}
+	c.autoInvs[li.ordinal] = out
+	return out
 }
 
 // execBlock symbolically executes one basic block.
@@ -1059,7 +1200,7 @@ func (c *fnCtx) lookupVarY(st *State, name string, at *ssa.BasicBlock, atEnd boo
 			if !ok {
 				break
 			}
-			if phi.Comment == name {
+			if phi.Comment == name || strings.ReplaceAll(phi.Comment, ".", "_") == name {
 				return c.vals[phi], true
 			}
 		}
@@ -1071,7 +1212,7 @@ func (c *fnCtx) lookupVarY(st *State, name string, at *ssa.BasicBlock, atEnd boo
 			if !ok {
 				break
 			}
-			if phi.Comment == name {
+			if phi.Comment == name || strings.ReplaceAll(phi.Comment, ".", "_") == name {
 				return c.vals[phi], true
 			}
 		}
